@@ -2,20 +2,27 @@ package rt
 
 import (
 	"fmt"
+	"os"
 	"testing"
 
-	"verif/harness/props/corpus"
+	"verif/harness/llvmoracle"
+	"verif/harness/mbt"
+	"verif/harness/props/modgen"
 )
 
-// TestSurvey prints what the pipeline finds on the corpora (development aid).
+// TestSurvey prints what the pipeline finds on the Modules.tla families (development aid).
 func TestSurvey(t *testing.T) {
-	ins := corpus.Testdata()
-	st := corpus.Stress(20, 150, 1000)
-	ins = append(ins, st...)
-	ins = append(ins, corpus.Opt(st[:5], "-O1", "-mem2reg")...)
-	ins = append(ins, corpus.Clang("-O0", "-O2", "-O1 -g")...)
-	for _, in := range ins {
-		r := Run(in.Text, true)
+	rep := mbt.NewReport("C01", "quick", "translation_validation")
+	fams := []string{"*"}
+	if f := os.Getenv("FAMS"); f != "" {
+		fams = []string{f}
+	}
+	vs := modgen.Generate(rep, fams...)
+	res := make([]*Result, len(vs))
+	llvmoracle.Parallel(len(vs), func(i int) { res[i] = Run(vs[i].Text(), true) })
+	counts := map[string]int{}
+	for i, v := range vs {
+		r := res[i]
 		status := "ok"
 		switch {
 		case !r.InputValid:
@@ -29,13 +36,17 @@ func TestSurvey(t *testing.T) {
 		case !r.OutputValid:
 			status = "OUTPUT-INVALID " + r.OutputDiag
 		case !r.SameMeaning:
-			status = fmt.Sprintf("MEANING-DIFFERS %q", r.DiffLines)
+			status = fmt.Sprintf("MEANING-DIFFERS %s %q", ClassifyDiff(r.DiffLines), r.DiffLines)
 		case !r.Fixpoint || !r.DigestEqual:
 			status = fmt.Sprintf("NOT-FIXPOINT fix=%v digest=%v %s %s", r.Fixpoint, r.DigestEqual, r.ReparseErr, r.ReparsePanic)
 		}
-		if len(status) > 700 {
-			status = status[:700]
+		counts[v.Fam+" "+status[:min(len(status), 12)]]++
+		if status != "ok" {
+			if len(status) > 600 {
+				status = status[:600]
+			}
+			fmt.Printf("%-60s %s\n", v.Label(), status)
 		}
-		fmt.Printf("%-45s %s\n", in.Name, status)
 	}
+	fmt.Println(counts)
 }
